@@ -74,6 +74,11 @@ def run_worker(ops, hashseed, tmp_name, rate):
     return [json.loads(l) for l in p.stdout.decode().splitlines() if l.strip()]
 
 
+def artefact_kind(k0):
+    return ("sfs-json" if "/jsons/" in k0 else "rbr" if k0.endswith(".rbr") else "disasm" if "disasm" in k0 else
+            "log" if k0.endswith(".log") else "csv" if k0.endswith(".csv") else "output" if "_optimized" in k0 else k0)
+
+
 def task(spec):
     rs = stream(spec["seed"], spec["index"], "schedule")
     ops = build_ops(spec)
@@ -109,8 +114,7 @@ def task(spec):
             if a["art"] != b["art"]:
                 ks = sorted(k for k in set(a["art"]) | set(b["art"]) if a["art"].get(k) != b["art"].get(k))
                 k0 = ks[0]
-                kind = ("sfs-json" if "/jsons/" in k0 else "rbr" if k0.endswith(".rbr") else "disasm" if "disasm" in k0 else
-                        "log" if k0.endswith(".log") else "csv" if k0.endswith(".csv") else "output" if "_optimized" in k0 else k0)
+                kind = artefact_kind(k0)
                 viols.append({"class": ["nondeterminism", kind],
                               "detail": "artefact %s differs between PYTHONHASHSEED=0 and %d (tmp %s, clock x%s) | argv %s" % (
                                   k0, schedules[si][0], schedules[si][1], schedules[si][2], " ".join(op["argv"][1:])),
@@ -128,5 +132,5 @@ def replay(rp):
     b = run_worker([rp["op"]], *s1)
     if a and b and a[0].get("art") != b[0].get("art"):
         ks = sorted(k for k in set(a[0]["art"]) | set(b[0]["art"]) if a[0]["art"].get(k) != b[0]["art"].get(k))
-        return {"class": ["nondeterminism", ks[0]], "detail": "artefacts differ: %s" % ks[:5], "replay": rp}
+        return {"class": ["nondeterminism", artefact_kind(ks[0])], "detail": "artefacts differ: %s" % ks[:5], "replay": rp}
     return None
